@@ -8,6 +8,7 @@ import RasnModel.Driver.C17
 import RasnModel.Driver.Struct
 import RasnModel.Driver.Pipeline
 import RasnModel.Driver.C08
+import RasnModel.Driver.Recursion
 import RasnModel.Driver.C09
 import RasnModel.Driver.C12
 import RasnModel.Driver.C13
@@ -20,6 +21,7 @@ def dispatch (line : String) : String :=
   match Sexp.parseLine line with
   | some (.atom "c04" :: args) => Driver.C04.handle args
   | some (.atom "c06" :: args) => Driver.C06.handle args
+  | some (.atom "c06set" :: args) => Driver.C06.handleSet args
   | some (.atom "c07" :: args) => Driver.C07.handle args
   | some (.atom "c14" :: args) => Driver.C14.handle args
   | some (.atom "c15" :: args) => Driver.C15.handle args
@@ -29,6 +31,7 @@ def dispatch (line : String) : String :=
   | some (.atom "struct" :: args) => Driver.Struct.handle args
   | some (.atom "recgraph" :: args) => Driver.Struct.handleRec args
   | some (.atom "c08chase" :: args) => Driver.C08.handle args
+  | some (.atom "recmark" :: args) => Driver.Recursion.handle args
   | some (.atom "c09" :: args) => Driver.C09.handle args
   | some (.atom "c12use" :: args) => Driver.C12.handle args
   | some (.atom "c13skip" :: args) => Driver.C13.handle args
